@@ -1,7 +1,7 @@
 #!/bin/bash
 # confirm_seed.sh <ID> [n]: in the sub-agent's scratch worktree /tmp/mut/<ID> (change + demo applied) confirm that
 #  (1) the whole suite passes with the change except the demo, (2) the demo fails with the change, (3) the demo passes with the change reverse-applied.
-ID=$1; N=${2:-1}; W=/tmp/mut/$ID; OUT=/verif/seeded/$ID-$N
+ID=$1; N=${2:-1}; SUF=${3:-}; W=/tmp/mut/$ID$SUF; OUT=/verif/seeded/$ID-$N
 mkdir -p $OUT; cp $W/out/patch.diff $W/out/meta.json $OUT/ 2>/dev/null; cp $W/out/demo.diff $OUT/ 2>/dev/null
 export CARGO_NET_OFFLINE=true
 cd $W || exit 2
